@@ -148,9 +148,6 @@ class Gateway(SimGateway):
             self.tr = p
         return delay
 
-    def lose_transport(self, delay: float = 0.0) -> None:
-        super().lose_transport(delay)
-
     def on_stream_data(self, tr, data: bytes) -> None:
         if not self.secure:
             super().on_stream_data(tr, data)
@@ -257,7 +254,6 @@ def _kdf_patches():
 def execute(case):
     """Run one session. Returns an observation dict."""
     from xknx import XKNX
-    from xknx.core import XknxConnectionState
     from xknx.exceptions import CommunicationError
     from xknx.io.tunnel import SecureTunnel, TCPTunnel, UDPTunnel
     from xknx.knxip import ErrorCode
@@ -508,7 +504,7 @@ def judge(ctx, case, obs) -> None:
         if final["state"] == "CONNECTED" and not live:
             # root-cause hint: was a loss signalled in the very loop iteration in which a reconnect task finished?
             exits = {e["tick"] for e in log if e["kind"] == "reconnect-exit"}
-            lost_then = any(e["tick"] in exits for e in log if (e["dir"] == "s2c" and e["kind"] == "DisconnectRequest") or e["kind"] in ("transport_closed", "transport-lost-by-server"))
+            lost_then = any(e["tick"] in exits for e in log if (e["dir"] == "s2c" and e["kind"] == "DisconnectRequest") or e["kind"] == "transport-lost-by-server")
             why = "loss-in-iteration-reconnect-finished" if lost_then else "other"
             ctx.fail(f"C25:state-connected-without-connection:{why}", case, f"final={final}")
         hs = [i for i, e in enumerate(log) if e["dir"] == "s2c" and e["kind"] == "ConnectResponse" and e.get("handshake")]
